@@ -2,7 +2,7 @@
    input : <id> <kind> <policy> <ssl> <auth> <custom> <host> <nonoop> <mute> <caps> <capstls> <hs> <script> <msgs>
      kind dial|das|sess   policy M|O|N   ssl 0|1   auth/host: hex   custom: - | plain0 | plain1 | login0 | cram | xoauth2
      nonoop 0|1   mute: - | n   caps/capstls: hex list   hs: ok|wrongname|untrusted|garbage|stall
-     script: - | comma list of ok|drop|stall|<code>|<code>b   msgs: - | comma list of recipient counts
+     script: - | comma list of ok|drop|stall|<code>|<code>b|<code>e   msgs: - | comma list of recipient counts
    output: <id> <results> closes=<n> open=<0|1> arm=<clear>|<tls> srv=<log>          (ssl = 0, in-memory transport)
            <id> <results> ended=<0|1> srv=<log>                                       (ssl = 1, TCP transport)        *)
 open Util
@@ -42,8 +42,9 @@ let decision_of (s : string) : M.decision =
   | "ok" -> M.DOk | "drop" -> M.DDrop | "stall" -> M.DStall
   | _ ->
     let n = String.length s in
-    if n > 0 && s.[n - 1] = 'b' then M.DReply (n_of_int (int_of_string (String.sub s 0 (n - 1))), true)
-    else M.DReply (n_of_int (int_of_string s), false)
+    if n > 0 && s.[n - 1] = 'b' then M.DReply (n_of_int (int_of_string (String.sub s 0 (n - 1))), M.TxB64)
+    else if n > 0 && s.[n - 1] = 'e' then M.DReply (n_of_int (int_of_string (String.sub s 0 (n - 1))), M.TxEmpty)
+    else M.DReply (n_of_int (int_of_string s), M.TxPlain)
 
 let run (toks : string list) : string =
   match toks with
